@@ -79,30 +79,6 @@ pub struct Obs {
     pub ops: u64,
 }
 
-impl Obs {
-    fn new<I: Kind, O: Kind>() -> Obs {
-        Obs {
-            in_ptr: 0,
-            in_len: 0,
-            in_cap: 0,
-            in_per: I::PER,
-            out_per: O::PER,
-            in_elem_size: core::mem::size_of::<I::E>(),
-            in_elem_align: core::mem::align_of::<I::E>(),
-            out_elem_size: core::mem::size_of::<O::E>(),
-            out_elem_align: core::mem::align_of::<O::E>(),
-            has_ptr: true,
-            has_cap: false,
-            outcome: Outcome::Panic(String::new()),
-            orig_after: None,
-            wt_after: None,
-            ev: vec![],
-            ev_overflow: false,
-            ops: 1,
-        }
-    }
-}
-
 // -----------------------------------------------------------------------------------------
 // element kinds
 
@@ -486,7 +462,7 @@ fn core_borrow(p: &P, i: &KindVt, o: &KindVt, make: MakeOwner, is_slice: bool, m
     let r1 = w.raw();
     let now = unsafe { (i.flat)(r1.ptr, r1.len) };
     if rejected {
-        ob.outcome = Outcome::Rej { kind: "slice", ptr: r1.ptr as usize, len: r1.len, cap: r1.cap, bits: now.clone() };
+        ob.outcome = Outcome::Rej { kind: "slice", ptr: r1.ptr as usize, len: r1.len, cap: r1.cap, bits: track::off(|| now.clone()) };
     }
     if wrote {
         ob.wt_after = Some(now);
